@@ -1028,6 +1028,22 @@ def f(s, t):
     return w, tot
 ''')
 
+
+corpus('''
+def f(l, n):
+    m = None
+    im = -1
+    for i in range(len(l)):
+        if l[i] < n and (m is None or l[i] < m):
+            m = l[i]
+            im = i
+    best = l[im] if im >= 0 and l[im] is not None else None
+    if l and l[0] > 3 or n == 0:
+        return best, m, 1
+    x = m if m is not None and m > 2 else 0
+    return best, m, x
+''')
+
 # ---- input generation by parameter name ----------------------------------------------------------------------------------------
 
 
@@ -1198,6 +1214,8 @@ def struct_sites(fdef):
             out.append(('retrepl', n))
         if isinstance(n, ast.IfExp):
             out.append(('ifexpswap', n))
+        if isinstance(n, ast.BoolOp) and len(n.values) >= 2:
+            out.append(('boolswap', n))
         if isinstance(n, ast.Subscript) and not isinstance(n.slice, ast.Slice) and isinstance(n.ctx, ast.Load):
             out.append(('idxplus', n))
     return out
@@ -1280,6 +1298,8 @@ def struct_apply(kind, node, rng, fdef):
         node.left, node.comparators[0] = node.comparators[0], node.left
     elif kind == 'ifexpswap':
         node.body, node.orelse = node.orelse, node.body
+    elif kind == 'boolswap':
+        node.values[0], node.values[1] = node.values[1], node.values[0]
     elif kind == 'idxplus':
         node.slice = ast.BinOp(left=node.slice, op=ast.Add(), right=ast.Constant(value=1))
 
@@ -1321,6 +1341,11 @@ def accepts(a, b):
         return None
     if ta == tb:
         return 'equal terms'
+    try:
+        if equiv_mod_ite(tb, ta):
+            return 'decision trees'
+    except Exception:
+        pass
     for n in (8, 32, 160):
         try:
             g2, e2 = ctx.spec_term(b, name='f', unroll=n), ctx.spec_term(a, name='f', unroll=n)
@@ -1377,7 +1402,7 @@ def work(job):
     except Exception as ex:
         return job, 'error', 'oracle: %s %s' % (kind, ex)
     if d is None:
-        return job, 'accepted-equivalent', kind
+        return job, 'accepted-equivalent (%s)' % why, kind
     if always_crashes(new, seed):
         return job, 'accepted-mutant-always-crashes', kind
     return job, 'UNSOUND', '%s (%s)\n--- mutant of %s\n%s--- input %r\n    original -> %r\n    mutant   -> %r' % (kind, why, name, new, d[0], d[1], d[2])
